@@ -256,12 +256,17 @@ class Statechart:
         if transition not in self._transitions:
             raise StatechartError('Unknown transition {}'.format(transition))
 
-        # Rotate using source
+        # Check new source and new target before changing anything
         if new_source != '':
             new_source_state = self.state_for(new_source)
             if not isinstance(new_source_state, TransitionStateMixin):
                 raise StatechartError('{} cannot have transitions'.format(new_source_state))
             assert isinstance(new_source_state, StateMixin)
+        if new_target != '' and new_target is not None:
+            new_target_state = self.state_for(new_target)
+
+        # Rotate using source
+        if new_source != '':
             transition._source = new_source_state.name
 
         # Rotate using target
@@ -269,7 +274,6 @@ class Statechart:
             if new_target is None:
                 transition._target = None
             else:
-                new_target_state = self.state_for(new_target)
                 transition._target = new_target_state.name
 
     def transitions_from(self, source: str) -> List[Transition]:
